@@ -6,7 +6,7 @@ from typing import Dict, List, Optional, Set
 
 from .. import memo, q
 from ..boolterm import head_name
-from ..core import canon_fact, primary_facts, order_key, AnchorError, Ctx, FuncInfo, dotted, guard_facts, norm, returns_or_raises_everywhere, walk_no_nested
+from ..core import enclosing_stmt, canon_fact, primary_facts, order_key, AnchorError, Ctx, FuncInfo, dotted, guard_facts, norm, returns_or_raises_everywhere, walk_no_nested
 from ..rewrite import check_arity, check_total
 from . import c04
 
@@ -58,6 +58,7 @@ def run(ctx: Ctx):
     check_expqmap(ctx)
     check_dest_discipline(ctx, ic)
     check_or_idiom(ctx, ic)
+    ctx.section(check_xor_negation, ctx, ic)
     check_wires(ctx)
     from . import c03
 
@@ -523,3 +524,82 @@ def check_wires(ctx: Ctx):
     if chain:
         _, els = q.if_chain(chain[0])
         ctx.check(bool(els) and isinstance(els[-1], ast.Raise), "DP-CLOSED", sim, "unknown gates raise", "", "a gate the simulator does not know is skipped silently", chain[0])
+
+
+def check_xor_negation(ctx: Ctx, ic):
+    """MP-negation: compile_xor accumulates its operands into one qubit.  Where it strips the negation of an operand
+    (compiles `e.args[0]` of an operand it tested to be a Not) it owes the accumulator one X *per such operand*: X is
+    an involution, so the number of flips matters, not whether there was one.  Decided from the loop over the
+    operands: the X is emitted in the same iteration, under the guard that stripped the negation; a flag that is only
+    ever set and consumed once after the loop loses the parity."""
+    fi = ic.methods.get("compile_xor")
+    if fi is None:
+        raise AnchorError(IC + ".compile_xor", "not found")
+    loops = [l for l in q.for_loops(fi.node) if norm(l.iter).endswith(".args")]
+    if len(loops) != 1 or not isinstance(loops[0].target, ast.Name):
+        raise AnchorError(fi.short, f"{len(loops)} loops over the operands")
+    loop = loops[0]
+    ev = loop.target.id
+    d_names = dest_aliases(fi)
+    role = "a negation stripped from an operand is re-applied once per operand"
+    # unwrap sites: `<ev>.args[0]` read inside the loop under a positive isinstance(<ev>, Not) fact
+    sites = []
+    for n in ast.walk(loop):
+        if isinstance(n, ast.Subscript) and isinstance(n.ctx, ast.Load) and norm(n) == f"{ev}.args[0]":
+            facts = [(norm(e).replace(" ", ""), pol) for e, pol in guard_facts(fi, n)]
+            if any(pol and f.startswith(f"isinstance({ev},") and "Not" in f for f, pol in facts):
+                st = enclosing_stmt(fi, n)
+                # a mere test (`not isinstance(e.args[0], Symbol)`) is not a use
+                par = fi.pm.get(n)
+                if isinstance(par, ast.Call) and isinstance(par.func, ast.Name) and par.func.id == "isinstance":
+                    continue
+                if not any(st is s for s, _ in sites):
+                    sites.append((st, n))
+    if not sites:
+        ctx.ok("MP-negation", fi, role, "compile_xor strips no negation itself (negated operands go through compile_expr)", loop)
+        return
+    xs = [c for c in q.calls(fi.node) if dotted(c.func) == "qc.x" and c.args and norm(c.args[0]) in d_names]
+    for st, n in sites:
+        in_iter = []
+        for c in xs:
+            if not q.contains(loop, c):
+                continue
+            cf = [(norm(e).replace(" ", ""), pol) for e, pol in guard_facts(fi, c)]
+            if any(pol and f.startswith(f"isinstance({ev},") and "Not" in f for f, pol in cf) or q.contains(st, c) or _same_block(fi, st, enclosing_stmt(fi, c)):
+                in_iter.append(c)
+        if len(in_iter) == 1:
+            ctx.ok("MP-negation", fi, role, f"`{norm(in_iter[0])}` in the iteration that compiles `{norm(n)}`", st)
+            continue
+        if len(in_iter) > 1:
+            ctx.fail("MP-negation", fi, role, f"{len(in_iter)} X gates on the accumulator in the iteration that strips `{norm(n)}`: an even number of flips cancels the negation", st)
+            continue
+        after = [c for c in xs if not q.contains(loop, c)]
+        if after:
+            # flipped once after the loop: under which flag, and is the flag a parity?
+            c = after[0]
+            flags = [e for e, pol in guard_facts(fi, c) if isinstance(e, ast.Name)]
+            toggled = False
+            for fl in flags:
+                for a in ast.walk(loop):
+                    if isinstance(a, ast.AugAssign) and isinstance(a.target, ast.Name) and a.target.id == fl.id and isinstance(a.op, ast.BitXor):
+                        toggled = True
+                    if isinstance(a, ast.Assign) and any(isinstance(t, ast.Name) and t.id == fl.id for t in a.targets) and isinstance(a.value, ast.UnaryOp) and isinstance(a.value.op, ast.Not) and norm(a.value.operand) == fl.id:
+                        toggled = True
+            if toggled:
+                ctx.ok("MP-negation", fi, role, f"the flag guarding `{norm(c)}` is toggled per negated operand", st)
+            else:
+                ctx.fail("MP-negation", fi, role, f"`{norm(st)[:70]}` strips the negation of an operand and `{norm(c)}` is emitted once after the loop" + (f" under `{norm(flags[0])}`, which is only ever set" if flags else "") + ": with two (any even number of) negated operands a single X is emitted where the flips should cancel - the destination holds the complement of the Xor", c)
+        else:
+            ctx.fail("MP-negation", fi, role, f"`{norm(st)[:70]}` compiles the operand without its negation and no X is applied to the accumulator: the operand enters the Xor complemented", st)
+
+
+def _same_block(fi: FuncInfo, a, b) -> bool:
+    """two statements in the same statement list (executed together)"""
+    pa, pb = fi.pm.get(a), fi.pm.get(b)
+    if pa is None or pa is not pb:
+        return False
+    for fld in ("body", "orelse", "finalbody"):
+        ss = getattr(pa, fld, None)
+        if isinstance(ss, list) and any(x is a for x in ss) and any(x is b for x in ss):
+            return True
+    return False
